@@ -230,6 +230,8 @@ def handle (st : DState) (line : String) : DState × String :=
     let view := if msgs == "-" then [] else (msgs.splitOn ";").filterMap parseSMsg
     let ks := parseKeys 64 keys
     (st, showNats ((Search.search view mxs.toNat! mxu.toNat! ks).map (·.uid)))
+  | ["num", "ser", n] => (st, showNats (Wire.digits n.toNat!))
+  | ["num", "parse", bs] => let r := Grammar.readNum 0 (parseNats bs); (st, s!"{r.1} {showNats r.2}")
   | ["quoted", "parse", bs] =>
     (st, match Wire.parseQuoted (parseNats bs) with
       | some (v, rest) => s!"{showNats v} {showNats rest}"
